@@ -1,4 +1,5 @@
 // unit: text -- Decimal256 / Uint256 text conversions (C18)
+#![feature(pattern)]
 use vstd::prelude::*;
 use vstd::std_specs::ops::*;
 use vstd::std_specs::cmp::*;
